@@ -4,7 +4,7 @@
 # Exit 2 on any failure (never a verdict).
 set -u
 S="$1"; RACE="${2:-}"
-VERIF=/verif
+VERIF=$(cd "$(dirname "$0")/.." && pwd)
 REPO="${VERIF_REPO:-/repo}"
 export GOFLAGS=-mod=mod GOPROXY=off GOSUMDB=off GOTOOLCHAIN=local GONOSUMDB='*' GONOSUMCHECK=1 GOFLAGS="-mod=mod"
 GO=go1.26.8
